@@ -204,14 +204,14 @@ func evalC19Plan(p c19Plan) *Failure {
 		}
 	}
 	var idleReady, stallerReady sync.WaitGroup
-	var releaseStallers chan struct{}
+	var releaseStallers, leave chan struct{}
 	runConn := func(spec c19ConnSpec, idle chan struct{}, stalled func()) {
 		var readyOnce sync.Once
 		markReady := func() { readyOnce.Do(idleReady.Done) }
-		if spec.Mode == "idle" {
+		if strings.HasPrefix(spec.Mode, "idle") {
 			defer markReady() // also when it fails before it becomes idle
 		}
-		isTLS := strings.HasPrefix(spec.Mode, "tls-")
+		isTLS := strings.HasPrefix(spec.Mode, "tls-") || spec.Mode == "idle-tls-stall"
 		addr := plainAddr
 		if isTLS {
 			addr = tlsAddr
@@ -247,6 +247,13 @@ func evalC19Plan(p c19Plan) *Failure {
 		case "tls-garbage":
 			raw.Write([]byte("\x16\x03\x01\x00\x05hello-not-tls"))
 			expectClosed(raw, spec.Mode)
+			return
+		}
+		if spec.Mode == "idle-tls-stall" {
+			// a TLS client that never starts its handshake and stays connected until the server is stopped
+			markReady()
+			<-idle
+			expectClosed(raw, "server-stop(tls handshake pending)")
 			return
 		}
 		for i := 0; i < spec.Reqs; i++ {
@@ -305,6 +312,9 @@ func evalC19Plan(p c19Plan) *Failure {
 				tc.SetLinger(0)
 			}
 			raw.Close()
+		case "idle-leave":
+			markReady()
+			<-leave // leaves on its own at the very moment the server is stopped
 		case "idle":
 			markReady()
 			<-idle // stays connected until the plan's Stop
@@ -323,6 +333,7 @@ func evalC19Plan(p c19Plan) *Failure {
 		var wg, idleWg, stallWg sync.WaitGroup
 		nIdle, nStall, nHold := 0, 0, 0
 		releaseStallers = make(chan struct{})
+		leave = make(chan struct{})
 		for _, spec := range p.Conns {
 			if spec.Mode == "stop-reading" || strings.HasSuffix(spec.Mode, "-hold") {
 				if spec.Mode == "stop-reading" {
@@ -340,7 +351,7 @@ func evalC19Plan(p c19Plan) *Failure {
 				}(spec)
 				continue
 			}
-			if spec.Mode == "idle" {
+			if strings.HasPrefix(spec.Mode, "idle") {
 				if !p.Stop || cy != cycles-1 {
 					continue
 				}
@@ -390,8 +401,11 @@ func evalC19Plan(p c19Plan) *Failure {
 			for len(srv.Conns()) < nIdle && time.Now().Before(deadline) {
 				time.Sleep(time.Millisecond)
 			}
+			close(leave) // some clients disconnect on their own while Stop sweeps the registry
 			if err := srv.Stop(); err != nil {
-				return failf("c19|stop-error", "%s: Stop: %v", what, err)
+				close(idle)
+				idleWg.Wait()
+				return failf("c19|stop-error", "%s: Stop returned %v", what, err)
 			}
 			stopped = true
 			close(idle)
@@ -450,7 +464,7 @@ var _ = io.EOF
 func TestC19(t *testing.T) {
 	h := newHarness(t, "C19", "ending modes {FIN at a request boundary, FIN inside a request at every sampled offset, full close, QUIT with requests pipelined behind it, malformed frame at a random position, write failure after N bytes, rejected certificate} x position in a pipeline on scripted connections "+
 		"(exact cut offsets and write failures injected deterministically; Close calls counted), and churn plans on real loopback TCP/TLS: 1..32 connections in flight mixing {FIN, FIN mid-request, RST (linger 0), QUIT, malformed frame, peer that stops reading then resets, "+
-		"QUIT / malformed frame with the client keeping its own end open, TLS ok, TLS without certificate, TLS with a rejected name, garbage on the TLS port, idle until Server.Stop}. Oracle: per connection the socket is closed (client sees EOF/reset), the loop returned and the registry entry is gone; per plan, after a settle budget of 15 s (what is judged is the final state), "+
+		"QUIT / malformed frame with the client keeping its own end open, TLS ok, TLS without certificate, TLS with a rejected name, garbage on the TLS port, idle until Server.Stop, leaving on their own exactly when Stop sweeps, TLS handshake never started until Stop}. Oracle: per connection the socket is closed (client sees EOF/reset), the loop returned and the registry entry is gone; per plan, after a settle budget of 15 s (what is judged is the final state), "+
 		"the server goroutine count, len(Conns()) and the /proc/self/fd count are back at the values sampled before the plan. Thorough: up to 10^4 connection endings per plan in repeated cycles. "+
 		"Non-trivial: the plan mixes >=3 ending modes with >=4 connections in flight (scripted: an ending other than FIN at a boundary). Distinct = distinct case.")
 	defer h.Finish()
@@ -482,7 +496,7 @@ func TestC19(t *testing.T) {
 		h.Fail(rt, "c19.scripted", c, evalC19Scripted(c))
 	})
 
-	modes := []string{"fin", "fin-mid", "rst", "quit", "malformed", "quit-hold", "malformed-hold", "stop-reading", "tls-ok", "tls-nocert", "tls-wrongname", "tls-garbage", "idle"}
+	modes := []string{"fin", "fin-mid", "rst", "quit", "malformed", "quit-hold", "malformed-hold", "stop-reading", "tls-ok", "tls-nocert", "tls-wrongname", "tls-garbage", "idle", "idle", "idle-leave", "idle-leave", "idle-tls-stall"}
 	nplans := h.N(120, 6000) / h.NShards
 	if nplans < 5 {
 		nplans = 5
